@@ -1,6 +1,6 @@
 (* proofs/Utf8P.v — C08: the UTF-8 validator of the model (std::str::from_utf8, utf8::decode,
    Incomplete::try_complete, StringCollector) against the Unicode Table 3-7 grammar. *)
-From TungModel Require Import Base Utf8.
+From TungModel Require Import Base Coding Mask Header Frame Utf8 World Message Codec Protocol.
 From Coq Require Import Arith Wf_nat Lia ZifyBool ZifyNat ZifyN.
 
 Arguments N.add : simpl never.
@@ -671,3 +671,484 @@ Qed.
 
 Corollary collect_cut_independent fs1 fs2 : concat fs1 = concat fs2 -> collect fs1 = collect fs2.
 Proof. intros E. rewrite !collect_closed_form, E. reflexivity. Qed.
+
+(* ------------------------------------------------------------------------------------------ *)
+(* Message.v: close reasons, IncompleteMessage                                                  *)
+(* ------------------------------------------------------------------------------------------ *)
+Lemma frame_into_close_long a b reason :
+  frame_into_close (a :: b :: reason) =
+  if is_utf8 reason then ROk (Some (close_of_u16 (from_be [a; b]), reason)) else RErr EUtf8.
+Proof. reflexivity. Qed.
+
+Theorem close_reason_accept_iff a b reason :
+  (frame_into_close (a :: b :: reason) = ROk (Some (close_of_u16 (from_be [a; b]), reason)) <-> valid_utf8 reason) /\
+  (frame_into_close (a :: b :: reason) = RErr EUtf8 <-> ~ valid_utf8 reason).
+Proof.
+  rewrite frame_into_close_long, <- is_utf8_iff.
+  destruct (is_utf8 reason); split; split; intros H; try reflexivity; try discriminate H; try congruence.
+Qed.
+
+(* whatever Frame::into_close returns as a reason is valid, and is the payload minus the code *)
+Lemma frame_into_close_ok payload code reason :
+  frame_into_close payload = ROk (Some (code, reason)) ->
+  valid_utf8 reason /\ exists a b, payload = a :: b :: reason /\ code = close_of_u16 (from_be [a; b]).
+Proof.
+  destruct payload as [|a [|b r]]; cbn [frame_into_close]; try discriminate.
+  destruct (is_utf8 r) eqn:U; [|discriminate]. intros H. injection H as <- <-.
+  split; [apply is_utf8_iff; exact U|]. exists a, b. split; reflexivity.
+Qed.
+
+Definition incmsg_wf (m : incmsg) : Prop := match m with ITxt c => coll_wf c | IBin _ => True end.
+
+Lemma incmsg_extend_wf m tail lim : incmsg_wf m ->
+  incmsg_wf (snd (incmsg_extend m tail lim)) /\
+  fst (incmsg_extend m tail lim) <> RPanic site_utf8_checked_sub.
+Proof.
+  intros W. unfold incmsg_extend.
+  destruct ((limit_of lim <? incmsg_len m) || (limit_of lim - incmsg_len m <? blen tail)).
+  - destruct (two64 <=? incmsg_len m + blen tail); cbn [fst snd]; (split; [exact W | discriminate]).
+  - destruct m as [c|v]; [|cbn [fst snd]; split; [exact I | discriminate]].
+    pose proof (collector_extend_spec c tail W) as X.
+    destruct (collector_extend c tail) as [c'|c'|]; cbn [fst snd].
+    + split; [apply X | discriminate].
+    + split; [apply X | discriminate].
+    + exfalso. exact X.
+Qed.
+
+Lemma incmsg_complete_text m s : incmsg_wf m -> incmsg_complete m = ROk (MText s) -> valid_utf8 s.
+Proof.
+  destruct m as [c|v]; cbn [incmsg_wf incmsg_complete]; [|discriminate].
+  intros [Vd _]. unfold collector_into_string. destruct (sc_inc c); [discriminate|].
+  intros H. injection H as <-. exact Vd.
+Qed.
+
+(* ------------------------------------------------------------------------------------------ *)
+(* Protocol.v: everything read returns is valid UTF-8                                           *)
+(* ------------------------------------------------------------------------------------------ *)
+(* the strings a message exposes through Utf8Bytes::as_str *)
+Definition msg_ok (m : message) : Prop :=
+  match m with
+  | MText s => valid_utf8 s
+  | MClose (Some (_, reason)) => valid_utf8 reason
+  | _ => True
+  end.
+
+Definition inc_wf (i : option incmsg) : Prop := match i with Some m => incmsg_wf m | None => True end.
+Definition ctx_wf (x : ctx) : Prop := inc_wf (x_incomplete x).
+
+Lemma x_incomplete_set_additional x f : x_incomplete (set_additional x f) = x_incomplete x.
+Proof.
+  unfold set_additional. destruct (x_additional x) as [g|]; [|reflexivity].
+  destruct (opcode_eqb (h_opcode (f_hdr g)) (OCtl Pong)); reflexivity.
+Qed.
+
+Definition close_ok (cl : option close_frame) : Prop :=
+  match cl with Some (_, reason) => valid_utf8 reason | None => True end.
+
+Lemma protocol_violation_valid :
+  valid_utf8 [80; 114; 111; 116; 111; 99; 111; 108; 32; 118; 105; 111; 108; 97; 116; 105; 111; 110].
+Proof. apply is_utf8_iff. vm_compute. reflexivity. Qed.
+
+Lemma do_close_spec x cl : close_ok cl ->
+  x_incomplete (snd (do_close x cl)) = x_incomplete x /\
+  match fst (do_close x cl) with ROk (Some c) => close_ok c | _ => True end.
+Proof.
+  intros C. unfold do_close. destruct (x_state x); cbn [fst snd].
+  - split; [rewrite x_incomplete_set_additional; reflexivity|].
+    destruct cl as [[code reason]|]; [|exact I].
+    destruct (close_allowed code); [exact C | exact protocol_violation_valid].
+  - split; [reflexivity | exact C].
+  - split; [reflexivity | exact I].
+  - split; [reflexivity | exact I].
+  - split; [reflexivity | exact I].
+Qed.
+
+Lemma frame_into_close_close_ok payload cl : frame_into_close payload = ROk cl -> close_ok cl.
+Proof.
+  destruct cl as [[code reason]|]; [|intros _; exact I].
+  intros H. apply frame_into_close_ok in H. apply H.
+Qed.
+
+(* The part of read_message_frame that follows a successful read_frame, as a function of the frame only
+   (it never touches the transport).  [rmf_unfold] below proves this is exactly what the model does. *)
+Definition on_frame (x1 : ctx) (f : frame) : res (option message) * ctx :=
+  let h := f_hdr f in
+  if negb (can_read (x_state x1)) then (RErr (EProtocol ReceivedAfterClosing), x1) else
+  if h_rsv1 h || h_rsv2 h || h_rsv3 h then (RErr (EProtocol NonZeroReservedBits), x1) else
+  if role_eqb (x_role x1) Client && (match h_mask h with Some _ => true | None => false end)
+  then (RErr (EProtocol MaskedFrameFromServer), x1) else
+  match h_opcode h with
+  | OCtl ctl =>
+      if negb (h_fin h) then (RErr (EProtocol FragmentedControlFrame), x1) else
+      if 125 <? blen (f_payload f) then (RErr (EProtocol ControlFrameTooBig), x1) else
+      match ctl with
+      | Close =>
+          match frame_into_close (f_payload f) with
+          | ROk cl =>
+              let '(r, x2) := do_close x1 cl in
+              match r with
+              | ROk (Some c) => (ROk (Some (MClose c)), x2)
+              | ROk None => (ROk None, x2)
+              | RErr e => (RErr e, x2)
+              | RPanic s => (RPanic s, x2)
+              | ROutOfFuel => (ROutOfFuel, x2)
+              end
+          | RErr e => (RErr e, x1)
+          | RPanic s => (RPanic s, x1)
+          | ROutOfFuel => (ROutOfFuel, x1)
+          end
+      | CReserved i => (RErr (EProtocol (UnknownControlFrameType i)), x1)
+      | Ping =>
+          let x2 := if is_active (x_state x1) then set_additional x1 (frame_pong (f_payload f)) else x1 in
+          (ROk (Some (MPing (f_payload f))), x2)
+      | Pong => (ROk (Some (MPong (f_payload f))), x1)
+      end
+  | OData d =>
+      let fin := h_fin h in
+      match d with
+      | Continue =>
+          match x_incomplete x1 with
+          | Some msg =>
+              let '(r, msg') := incmsg_extend msg (f_payload f) (cfg_max_message_size (x_cfg x1)) in
+              let x2 := set_incomplete x1 (Some msg') in
+              match r with
+              | ROk _ =>
+                  if fin then
+                    match incmsg_complete msg' with
+                    | ROk m => (ROk (Some m), set_incomplete x2 None)
+                    | RErr e => (RErr e, set_incomplete x2 None)
+                    | RPanic s => (RPanic s, x2)
+                    | ROutOfFuel => (ROutOfFuel, x2)
+                    end
+                  else (ROk None, x2)
+              | RErr e => (RErr e, x2)
+              | RPanic s => (RPanic s, x2)
+              | ROutOfFuel => (ROutOfFuel, x2)
+              end
+          | None => (RErr (EProtocol UnexpectedContinueFrame), x1)
+          end
+      | _ =>
+          match x_incomplete x1 with
+          | Some _ => (RErr (EProtocol (ExpectedFragment d)), x1)
+          | None =>
+              match d with
+              | DReserved i => (RErr (EProtocol (UnknownDataFrameType i)), x1)
+              | Continue => (RPanic site_not_text_nor_binary, x1)
+              | Text | Binary =>
+                  if fin then
+                    match check_max_size (blen (f_payload f)) (cfg_max_message_size (x_cfg x1)) with
+                    | ROk _ =>
+                        match d with
+                        | Text => if is_utf8 (f_payload f) then (ROk (Some (MText (f_payload f))), x1)
+                                  else (RErr EUtf8, x1)
+                        | _ => (ROk (Some (MBinary (f_payload f))), x1)
+                        end
+                    | RErr e => (RErr e, x1)
+                    | RPanic s => (RPanic s, x1)
+                    | ROutOfFuel => (ROutOfFuel, x1)
+                    end
+                  else
+                    let inc0 := match d with Text => ITxt collector_new | _ => IBin [] end in
+                    let '(r, inc1) := incmsg_extend inc0 (f_payload f) (cfg_max_message_size (x_cfg x1)) in
+                    match r with
+                    | ROk _ => (ROk None, set_incomplete x1 (Some inc1))
+                    | RErr e => (RErr e, x1)
+                    | RPanic s => (RPanic s, x1)
+                    | ROutOfFuel => (ROutOfFuel, x1)
+                    end
+              end
+          end
+      end
+  end.
+
+Ltac dmatch :=
+  repeat match goal with
+  | |- context [match ?x with _ => _ end] => destruct x eqn:?
+  end.
+
+Lemma rmf_unfold x w :
+  read_message_frame x w =
+  let '(r0, c1, w1) := read_frame (cfg_max_frame_size (x_cfg x)) (role_eqb (x_role x) Server)
+                                  (cfg_accept_unmasked (x_cfg x)) (x_codec x) w in
+  let '(r0', s1) := check_connection_reset r0 (x_state x) in
+  let x1 := set_state (set_codec x c1) s1 in
+  match r0' with
+  | RErr e => (RErr e, x1, w1)
+  | RPanic s => (RPanic s, x1, w1)
+  | ROutOfFuel => (ROutOfFuel, x1, w1)
+  | ROk None =>
+      let x2 := set_state x1 Terminated in
+      match x_state x1 with
+      | ClosedByPeer | CloseAcknowledged => (RErr EConnectionClosed, x2, w1)
+      | _ => (RErr (EProtocol ResetWithoutClosingHandshake), x2, w1)
+      end
+  | ROk (Some f) => let '(r, x2) := on_frame x1 f in (r, x2, w1)
+  end.
+Proof.
+  unfold read_message_frame.
+  destruct (read_frame _ _ _ _ _) as [[r0 c1] w1].
+  destruct (check_connection_reset r0 (x_state x)) as [r0' s1].
+  destruct r0' as [[f|]|e|s|]; try reflexivity.
+  unfold on_frame. dmatch; reflexivity.
+Qed.
+
+Definition res_msg_ok (r : res (option message)) : Prop :=
+  match r with ROk (Some m) => msg_ok m | _ => True end.
+
+Lemma on_frame_exposed x1 f : ctx_wf x1 ->
+  ctx_wf (snd (on_frame x1 f)) /\ res_msg_ok (fst (on_frame x1 f)).
+Proof.
+  intros W. unfold on_frame.
+  destruct (negb (can_read (x_state x1))); [split; [exact W | exact I]|].
+  destruct (h_rsv1 (f_hdr f) || h_rsv2 (f_hdr f) || h_rsv3 (f_hdr f)); [split; [exact W | exact I]|].
+  destruct (role_eqb (x_role x1) Client && _); [split; [exact W | exact I]|].
+  destruct (h_opcode (f_hdr f)) as [d|ctl].
+  - (* data *)
+    destruct d as [| | |i].
+    + (* Continue *)
+      pose proof W as W0. unfold ctx_wf in W.
+      destruct (x_incomplete x1) as [msg|] eqn:Ei; [|split; [exact W0 | exact I]].
+      pose proof (incmsg_extend_wf msg (f_payload f) (cfg_max_message_size (x_cfg x1)) W) as [W' _].
+      destruct (incmsg_extend msg (f_payload f) (cfg_max_message_size (x_cfg x1))) as [r msg'].
+      cbn [snd] in W'.
+      destruct r as [u|e|s|]; try (split; [exact W' | exact I]).
+      destruct (h_fin (f_hdr f)); [|split; [exact W' | exact I]].
+      destruct (incmsg_complete msg') as [m|e|s|] eqn:Ec; cbn [fst snd]; try (split; [exact W' | exact I]);
+        try (split; [exact I | exact I]).
+      split; [exact I|]. cbn [res_msg_ok].
+      destruct msg' as [c|v]; cbn [incmsg_complete] in Ec.
+      * destruct (collector_into_string c) eqn:Es; [|discriminate Ec]. injection Ec as <-.
+        apply (incmsg_complete_text (ITxt c)); [exact W' | cbn [incmsg_complete]; rewrite Es; reflexivity].
+      * injection Ec as <-. exact I.
+    + (* Text *)
+      destruct (x_incomplete x1) as [msg|] eqn:Ei; [split; [exact W | exact I]|].
+      destruct (h_fin (f_hdr f)).
+      * destruct (check_max_size _ _); try (split; [exact W | exact I]).
+        destruct (is_utf8 (f_payload f)) eqn:U; [|split; [exact W | exact I]].
+        split; [exact W | apply is_utf8_iff; exact U].
+      * pose proof (incmsg_extend_wf (ITxt collector_new) (f_payload f) (cfg_max_message_size (x_cfg x1)) coll_wf_new) as [W' _].
+        destruct (incmsg_extend (ITxt collector_new) (f_payload f) (cfg_max_message_size (x_cfg x1))) as [r inc1].
+        cbn [snd] in W'.
+        destruct r as [u|e|s|]; try (split; [exact W | exact I]).
+        split; [exact W' | exact I].
+    + (* Binary *)
+      destruct (x_incomplete x1) as [msg|] eqn:Ei; [split; [exact W | exact I]|].
+      destruct (h_fin (f_hdr f)).
+      * destruct (check_max_size _ _); split; try exact W; exact I.
+      * pose proof (incmsg_extend_wf (IBin []) (f_payload f) (cfg_max_message_size (x_cfg x1)) I) as [W' _].
+        destruct (incmsg_extend (IBin []) (f_payload f) (cfg_max_message_size (x_cfg x1))) as [r inc1].
+        cbn [snd] in W'.
+        destruct r as [u|e|s|]; try (split; [exact W | exact I]).
+        split; [exact W' | exact I].
+    + destruct (x_incomplete x1); split; try exact W; exact I.
+  - (* control *)
+    destruct (negb (h_fin (f_hdr f))); [split; [exact W | exact I]|].
+    destruct (125 <? blen (f_payload f)); [split; [exact W | exact I]|].
+    destruct ctl as [| | |i].
+    + destruct (frame_into_close (f_payload f)) as [cl|e|s|] eqn:Ef; try (split; [exact W | exact I]).
+      pose proof (do_close_spec x1 cl (frame_into_close_close_ok _ _ Ef)) as [Ex Hr].
+      destruct (do_close x1 cl) as [r x2]. cbn [fst snd] in Ex, Hr.
+      assert (W2 : ctx_wf x2) by (unfold ctx_wf; rewrite Ex; exact W).
+      destruct r as [[c|]|e|s|]; cbn [fst snd]; try (split; [exact W2 | exact I]).
+      split; [exact W2|]. destruct c as [[code reason]|]; [exact Hr | exact I].
+    + cbn [fst snd]. split; [|exact I].
+      destruct (is_active (x_state x1)); [|exact W].
+      unfold ctx_wf. rewrite x_incomplete_set_additional. exact W.
+    + split; [exact W | exact I].
+    + split; [exact W | exact I].
+Qed.
+
+Theorem rmf_exposed x w r x' w' : ctx_wf x -> read_message_frame x w = (r, x', w') ->
+  ctx_wf x' /\ res_msg_ok r.
+Proof.
+  intros W. rewrite rmf_unfold.
+  destruct (read_frame _ _ _ _ _) as [[r0 c1] w1].
+  destruct (check_connection_reset r0 (x_state x)) as [r0' s1].
+  destruct r0' as [[f|]|e|s|]; cbv zeta.
+  - pose proof (on_frame_exposed (set_state (set_codec x c1) s1) f W) as [W2 M].
+    destruct (on_frame (set_state (set_codec x c1) s1) f) as [r2 x2]. cbn [fst snd] in W2, M.
+    intros H. injection H as <- <- <-. split; assumption.
+  - cbv zeta. destruct (x_state (set_state (set_codec x c1) s1)); intros H; injection H as <- <- <-; split; try exact W; exact I.
+  - intros H; injection H as <- <- <-; split; [exact W | exact I].
+  - intros H; injection H as <- <- <-; split; [exact W | exact I].
+  - intros H; injection H as <- <- <-; split; [exact W | exact I].
+Qed.
+
+(* the write side never touches the incomplete message *)
+Lemma buffer_frame_inc x f w r x' w' : buffer_frame x f w = (r, x', w') -> x_incomplete x' = x_incomplete x.
+Proof.
+  unfold buffer_frame.
+  destruct (match x_role x with Server => (f, w) | Client => _ end) as [f1 w1].
+  destruct (codec_buffer_frame (x_codec x) f1 w1) as [[r1 c'] w2].
+  destruct (check_connection_reset r1 (x_state x)) as [r' s'].
+  intros H. injection H as <- <- <-. reflexivity.
+Qed.
+
+Lemma write__inc x data w r x' w' : write_ x data w = (r, x', w') -> x_incomplete x' = x_incomplete x.
+Proof.
+  unfold write_.
+  assert (H0 : forall r0 x0 w0,
+    match data with Some f => buffer_frame x f w | None => (ROk tt, x, w) end = (r0, x0, w0) ->
+    x_incomplete x0 = x_incomplete x).
+  { intros r0 x0 w0. destruct data as [f|]; [apply buffer_frame_inc|].
+    intros H; injection H as <- <- <-; reflexivity. }
+  destruct (match data with Some f => buffer_frame x f w | None => (ROk tt, x, w) end) as [[r0 x0] w0].
+  specialize (H0 r0 x0 w0 eq_refl).
+  destruct r0 as [u|e|s|]; try (intros H; injection H as <- <- <-; exact H0).
+  assert (H1 : forall r1 x1 w1,
+    match x_additional x0 with
+    | Some msg =>
+        let xa := set_additional_raw x0 None in
+        let '(rb, xb, wb) := buffer_frame xa msg w0 in
+        match rb with
+        | RErr (EWriteBufferFull f') => (ROk false, set_additional xb f', wb)
+        | RErr e => (RErr e, xb, wb)
+        | RPanic s => (RPanic s, xb, wb)
+        | ROutOfFuel => (ROutOfFuel, xb, wb)
+        | ROk _ => (ROk true, xb, wb)
+        end
+    | None => (ROk (x_unflushed x0), x0, w0)
+    end = (r1, x1, w1) -> x_incomplete x1 = x_incomplete x0).
+  { intros r1 x1 w1. destruct (x_additional x0) as [msg|].
+    - cbv zeta.
+      destruct (buffer_frame (set_additional_raw x0 None) msg w0) as [[rb xb] wb] eqn:Eb.
+      apply buffer_frame_inc in Eb. cbn [x_incomplete set_additional_raw] in Eb.
+      destruct rb as [u'|e|s|]; try (intros H; injection H as <- <- <-; exact Eb).
+      destruct e; intros H; injection H as <- <- <-; try exact Eb.
+      rewrite x_incomplete_set_additional. exact Eb.
+    - intros H; injection H as <- <- <-; reflexivity. }
+  destruct (match x_additional x0 with Some msg => _ | None => _ end) as [[r1 x1] w1].
+  specialize (H1 r1 x1 w1 eq_refl).
+  destruct r1 as [sf|e|s|]; try (intros H; injection H as <- <- <-; congruence).
+  destruct (role_eqb (x_role x1) Server && closing_done (x_state x1) && _).
+  - destruct (write_out_buffer (x_codec x1) w1) as [[rw c'] w2].
+    destruct rw; intros H; injection H as <- <- <-; cbn [x_incomplete set_state set_codec]; congruence.
+  - intros H; injection H as <- <- <-; congruence.
+Qed.
+
+Lemma flush_inc x w r x' w' : flush x w = (r, x', w') -> x_incomplete x' = x_incomplete x.
+Proof.
+  unfold flush. destruct (write_ x None w) as [[r0 x0] w0] eqn:E0. apply write__inc in E0.
+  destruct r0 as [u|e|s|]; try (intros H; injection H as <- <- <-; exact E0).
+  destruct (write_out_buffer (x_codec x0) w0) as [[r1 c1] w1].
+  destruct r1 as [u1|e|s|]; try (intros H; injection H as <- <- <-; exact E0).
+  destruct (w_flush w1) as [r2 w2].
+  destruct r2; intros H; injection H as <- <- <-; exact E0.
+Qed.
+
+Lemma close_inc x code w r x' w' : close x code w = (r, x', w') -> x_incomplete x' = x_incomplete x.
+Proof.
+  unfold close. destruct (x_state x); intros H; apply flush_inc in H; exact H.
+Qed.
+
+Lemma write_inc x m w r x' w' : write x m w = (r, x', w') -> x_incomplete x' = x_incomplete x.
+Proof.
+  unfold write.
+  destruct (is_terminated (x_state x)); [intros H; injection H as <- <- <-; reflexivity|].
+  destruct (negb (is_active (x_state x))); [intros H; injection H as <- <- <-; reflexivity|].
+  assert (D : forall f,
+    (let '(r, x1, w1) := write_ x (Some f) w in
+     match r with
+     | ROk true => flush x1 w1
+     | ROk false => (ROk tt, x1, w1)
+     | RErr e => (RErr e, x1, w1)
+     | RPanic s => (RPanic s, x1, w1)
+     | ROutOfFuel => (ROutOfFuel, x1, w1)
+     end) = (r, x', w') -> x_incomplete x' = x_incomplete x).
+  { intros f. destruct (write_ x (Some f) w) as [[r1 x1] w1] eqn:E1. apply write__inc in E1.
+    destruct r1 as [[|]|e|s|]; try (intros H; injection H as <- <- <-; exact E1).
+    intros H. apply flush_inc in H. congruence. }
+  destruct m as [d|d|d|d|code|f]; try apply D.
+  - destruct (write_ (set_additional x (frame_pong d)) None w) as [[r1 x1] w1] eqn:E1.
+    apply write__inc in E1. rewrite x_incomplete_set_additional in E1.
+    destruct r1; intros H; injection H as <- <- <-; exact E1.
+  - apply close_inc.
+Qed.
+
+Definition res_read_ok (r : res message) : Prop := match r with ROk m => msg_ok m | _ => True end.
+
+Lemma read_loop_exposed fuel : forall x w r x' w', ctx_wf x -> read_loop fuel x w = (r, x', w') ->
+  ctx_wf x' /\ res_read_ok r.
+Proof.
+  induction fuel as [|fuel IH]; intros x w r x' w' W; cbn [read_loop].
+  - intros H; injection H as <- <- <-. split; [exact W | exact I].
+  - assert (P : forall r0 x0 w0,
+      (if (match x_additional x with Some _ => true | None => false end) || x_unflushed x then
+         let '(r, x', w') := flush x w in
+         match r with
+         | ROk _ => (ROk tt, x', w')
+         | RErr (EIo WouldBlock) => (ROk tt, set_unflushed x' true, w')
+         | _ => (r, x', w')
+         end
+       else if role_eqb (x_role x) Server && negb (can_read (x_state x)) then
+         let '(rw, c', w') := write_out_buffer (x_codec x) w in
+         match rw with
+         | ROk _ => (RErr EConnectionClosed, set_state (set_codec x c') Terminated, w')
+         | _ => (rw, set_codec x c', w')
+         end
+       else (ROk tt, x, w)) = (r0, x0, w0) -> x_incomplete x0 = x_incomplete x).
+    { intros r0 x0 w0.
+      destruct ((match x_additional x with Some _ => true | None => false end) || x_unflushed x).
+      - destruct (flush x w) as [[rf xf] wf] eqn:Ef. apply flush_inc in Ef.
+        destruct rf as [u|e|s|]; try (intros H; injection H as <- <- <-; exact Ef).
+        destruct e as [| |k| | | |]; try (intros H; injection H as <- <- <-; exact Ef).
+        destruct k; intros H; injection H as <- <- <-; exact Ef.
+      - destruct (role_eqb (x_role x) Server && negb (can_read (x_state x))).
+        + destruct (write_out_buffer (x_codec x) w) as [[rw c'] ww].
+          destruct rw; intros H; injection H as <- <- <-; reflexivity.
+        + intros H; injection H as <- <- <-; reflexivity. }
+    destruct (if (match x_additional x with Some _ => true | None => false end) || x_unflushed x then _ else _)
+      as [[r0 x0] w0].
+    specialize (P r0 x0 w0 eq_refl).
+    assert (W0 : ctx_wf x0) by (unfold ctx_wf; rewrite P; exact W).
+    destruct r0 as [u|e|s|]; try (intros H; injection H as <- <- <-; split; [exact W0 | exact I]).
+    destruct (read_message_frame x0 w0) as [[r1 x1] w1] eqn:E1.
+    destruct (rmf_exposed _ _ _ _ _ W0 E1) as [W1 M1].
+    destruct r1 as [[m|]|e|s|]; try (intros H; injection H as <- <- <-; split; [exact W1 | exact I]).
+    + intros H; injection H as <- <- <-. split; [exact W1 | exact M1].
+    + apply IH. exact W1.
+Qed.
+
+Theorem read_exposed x w r x' w' : ctx_wf x -> read x w = (r, x', w') -> ctx_wf x' /\ res_read_ok r.
+Proof.
+  intros W. unfold read. destruct (is_terminated (x_state x)).
+  - intros H; injection H as <- <- <-. split; [exact W | exact I].
+  - apply read_loop_exposed. exact W.
+Qed.
+
+Definition op_result_ok (o : op_result) : Prop := match o with ResMsg r => res_read_ok r | _ => True end.
+
+Lemma run_op_exposed x o w res x' w' : ctx_wf x -> run_op x o w = (res, x', w') ->
+  ctx_wf x' /\ op_result_ok res.
+Proof.
+  intros W. unfold run_op. destruct o as [|m| |c| | |wbs mx].
+  - destruct (read x w) as [[r x1] w1] eqn:E. apply (read_exposed _ _ _ _ _ W) in E.
+    intros H; injection H as <- <- <-. exact E.
+  - destruct (write x m w) as [[r x1] w1] eqn:E. apply write_inc in E.
+    intros H; injection H as <- <- <-. split; [unfold ctx_wf; rewrite E; exact W | exact I].
+  - destruct (flush x w) as [[r x1] w1] eqn:E. apply flush_inc in E.
+    intros H; injection H as <- <- <-. split; [unfold ctx_wf; rewrite E; exact W | exact I].
+  - destruct (close x c w) as [[r x1] w1] eqn:E. apply close_inc in E.
+    intros H; injection H as <- <- <-. split; [unfold ctx_wf; rewrite E; exact W | exact I].
+  - intros H; injection H as <- <- <-. split; [exact W | exact I].
+  - intros H; injection H as <- <- <-. split; [exact W | exact I].
+  - destruct (config_valid _); intros H; injection H as <- <- <-; (split; [exact W | exact I]).
+Qed.
+
+Theorem run_ops_exposed ops : forall x w rs x' w', ctx_wf x -> run_ops x ops w = (rs, x', w') ->
+  ctx_wf x' /\ Forall (fun p => op_result_ok (fst p)) rs.
+Proof.
+  induction ops as [|o ops IH]; intros x w rs x' w' W; cbn [run_ops].
+  - intros H; injection H as <- <- <-. split; [exact W | constructor].
+  - destruct (run_op x o w) as [[res1 x1] w1] eqn:E1.
+    destruct (run_op_exposed _ _ _ _ _ _ W E1) as [W1 R1].
+    destruct (run_ops x1 ops w1) as [[rs2 x2] w2] eqn:E2.
+    destruct (IH _ _ _ _ _ W1 E2) as [W2 R2].
+    intros H; injection H as <- <- <-. split; [exact W2|]. constructor; [exact R1 | exact R2].
+Qed.
+
+Lemma ctx_new_wf r part cfg x : ctx_new r part cfg = Some x -> ctx_wf x.
+Proof.
+  unfold ctx_new. destruct (config_valid cfg); [|discriminate].
+  intros H; injection H as <-. exact I.
+Qed.
